@@ -144,14 +144,14 @@ def run(ctx):
                 for out, _j in chunks[ci]:
                     f.write(out)
             bad = []
-            rej = vlib.validate_trace(path, os.path.join(wd, 't%04d' % ci), cfg='BusOom.cfg')
+            rej = vlib.validate_trace_lenient(path, os.path.join(wd, 't%04d' % ci), cfg='BusOom.cfg')
             if rej is None:
                 return bad
             # find the rejected run(s): validate each run of the chunk on its own
             for out, j in chunks[ci]:
                 one_path = path + '.one'
                 open(one_path, 'w').write(out)
-                r = vlib.validate_trace(one_path, os.path.join(wd, 't%04d' % ci), cfg='BusOom.cfg')
+                r = vlib.validate_trace_lenient(one_path, os.path.join(wd, 't%04d' % ci), cfg='BusOom.cfg')
                 if r is not None:
                     bad.append((j, out, r))
             return bad
